@@ -8,6 +8,15 @@ package main
 // exactly.  Subscribers with every lag 0..15 stay within the 16-slot queue: each must receive
 // EVERY published event, in order, with the bytes that were returned to the requester.
 // This file uses nothing of the notifier but its exported API.
+//
+// Stalled subscribers.  Two more subscribers stay connected and stop reading (one from the start, one
+// after ten operations): the connection goroutine takes one event and blocks writing it, sixteen more
+// fill the queue, everything later must be dropped for them — and every operation that publishes
+// (issuing requests through the real handlers, logins, the exported Publish* methods) must still
+// return promptly, and the healthy subscribers must still be handed every event.  Every operation
+// runs under a watchdog; one that does not return is reported and the stalled subscribers are then
+// read in the background so that the publisher (which holds the notifier's mutex) is released and the
+// test can finish.
 
 import (
 	"bufio"
@@ -45,6 +54,9 @@ type c20sSub struct {
 	dec  *json.Decoder
 	got  []eventmon.EventV0
 	bad  string
+	// a subscriber whose reader stops: from operation stallAt on it never reads again (-1: healthy)
+	stallAt int
+	inHand  bool // the connection goroutine has taken one event and is blocked writing it
 }
 
 func c20sAttach(t *testing.T, n *eventnotifier.EventNotifier, lag int) *c20sSub {
@@ -58,7 +70,7 @@ func c20sAttach(t *testing.T, n *eventnotifier.EventNotifier, lag int) *c20sSub 
 		t.Fatalf("eventmon connect over the pipe: %q %v", line, err)
 	}
 	br.ReadString('\n')
-	return &c20sSub{lag: lag, conn: client, dec: json.NewDecoder(br)}
+	return &c20sSub{lag: lag, conn: client, dec: json.NewDecoder(br), stallAt: -1}
 }
 
 // read one event (the connection goroutine is blocked in Flush until we do)
@@ -97,8 +109,73 @@ func c20sSame(a, b eventmon.EventV0) bool {
 		a.ServiceProviderUrl == b.ServiceProviderUrl && a.Username == b.Username && a.VIPAuthType == b.VIPAuthType
 }
 
+const c20sBound = 4 * time.Second // no publish may take this long (an issuance takes milliseconds)
+
+// run one operation under the watchdog; on a stall, report it and release the publisher
+func c20sGuard(res *verifResult, subs []*c20sSub, what string, cs map[string]interface{}, f func()) (finished, blocked bool) {
+	done := make(chan struct{})
+	go func() {
+		defer close(done)
+		f()
+	}()
+	select {
+	case <-done:
+		return true, false
+	case <-time.After(c20sBound):
+	}
+	var stalledNow []string
+	for i, s := range subs {
+		if s.stallAt >= 0 {
+			stalledNow = append(stalledNow, fmt.Sprintf("subscriber %d (connected, not reading since operation %d)", i, s.stallAt))
+		}
+	}
+	res.hit(verifHit{Key: "C20:publish-blocked:stalled-subscriber", Oracle: "an operation that publishes an event returns promptly whatever the subscribers do: a connected subscriber that has stopped reading never blocks issuance", Kind: "history",
+		What: fmt.Sprintf("%s still running after %v with %s; healthy subscribers are reading", what, c20sBound, strings.Join(stalledNow, ", ")), Case: cs})
+	// release: read the stalled subscribers until the operation returns
+	stop := make(chan struct{})
+	for _, s := range subs {
+		if s.stallAt < 0 {
+			continue
+		}
+		go func(s *c20sSub) {
+			for {
+				select {
+				case <-stop:
+					return
+				default:
+				}
+				s.conn.SetReadDeadline(time.Now().Add(200 * time.Millisecond))
+				var e eventmon.EventV0
+				if err := s.dec.Decode(&e); err != nil {
+					if ne, ok := err.(net.Error); ok && ne.Timeout() {
+						continue
+					}
+					return
+				}
+			}
+		}(s)
+	}
+	select {
+	case <-done:
+		finished = true
+	case <-time.After(15 * time.Second):
+		for _, s := range subs {
+			if s.stallAt >= 0 {
+				s.conn.Close()
+			}
+		}
+		select {
+		case <-done:
+			finished = true
+		case <-time.After(5 * time.Second):
+		}
+	}
+	close(stop)
+	return finished, true
+}
+
 func TestVerif_C20S(t *testing.T) {
-	res := newVerifResult("bursts of issuance (ssh / x509 / kubernetes certificates through the real certgen handler) and CLI password logins with 16 subscribers attached through the production connection path over unbuffered pipes, one for every lag 0..15 (events published but not yet read); the k-th event each subscriber is handed = the k-th published event, certificate bytes = the bytes returned to the requester; non-trivial = a subscriber that is behind when the next event is published")
+	res := newVerifResult("bursts of issuance (ssh / x509 / kubernetes certificates through the real certgen handler), CLI password logins and direct calls of every exported Publish* method, with subscribers attached through the production connection path over unbuffered pipes: one for every lag 0..15 (events published but not yet read) and two that stay connected and stop reading (from the start / after ten operations) until their queues are full and beyond; every operation runs under a watchdog and must return; the k-th event each healthy subscriber is handed = the k-th published event, certificate bytes = the bytes returned to the requester; a stalled subscriber is handed a subsequence; non-trivial = a subscriber that is behind (or stalled) when the next event is published")
 	env := verifSetup(t, func(c *AppConfigFile, dir string) {
 		c.Base.AllowedAuthBackendsForWebUI = []string{"password"}
 		c.Base.AllowedAuthBackendsForCerts = []string{"U2F"}
@@ -113,11 +190,24 @@ func TestVerif_C20S(t *testing.T) {
 		nHist, nOps = 4, 60
 	}
 	var cases, idx []string
+	blockedHistories := 0
 	for hi := 0; hi < nHist; hi++ {
 		eventNotifier = eventnotifier.New(logger)
 		var subs []*c20sSub
 		for lag := 0; lag <= 15; lag++ {
 			subs = append(subs, c20sAttach(t, eventNotifier, lag))
+		}
+		// the stalled ones: never reads / reads everything at once for ten operations, then stops
+		stallStarts := []int{0, 10}
+		if hi > 0 {
+			stallStarts = []int{rng.Intn(4), 4 + rng.Intn(nOps/2)}
+		}
+		var stalledIdx []string
+		for _, at := range stallStarts {
+			s := c20sAttach(t, eventNotifier, 0)
+			s.stallAt = at
+			stalledIdx = append(stalledIdx, fmt.Sprintf("%d%%nat", len(subs)))
+			subs = append(subs, s)
 		}
 		// registration happens in the connection goroutine: wait until every channel is in the map
 		// (an event published earlier would be missed by a late one) — probe with logins is not
@@ -127,55 +217,145 @@ func TestVerif_C20S(t *testing.T) {
 		var published []eventmon.EventV0
 		var ops []string
 		var desc []string
+		var blockedOps []string
+		aborted := false
+		// operation kinds: 0..2 certificate (ssh, x509, kubernetes) through the handler, 3 login, 4..9 direct Publish*
+		var kinds []int
 		for k := 0; k < nOps; k++ {
 			c := rng.Intn(100)
-			if k < 8 {
+			if k < 8 || (k >= 26 && k < 34) {
 				c = (k % 4) * 25
 			}
+			kinds = append(kinds, c/25)
+			if k == 21 {
+				// by now the stalled subscribers' queues are full: every exported Publish* method once
+				kinds = append(kinds, 4, 5, 6, 7, 8, 9)
+			}
+		}
+		for k, kind := range kinds {
 			var want []eventmon.EventV0
+			var failure string
+			var what string
+			run := func() {}
 			switch {
-			case c < 75:
-				ty := []string{"ssh", "x509", "x509-kubernetes"}[c/25]
+			case kind < 3:
+				ty := []string{"ssh", "x509", "x509-kubernetes"}[kind]
 				keyData := keys.pemPub
 				if ty == "ssh" {
 					keyData = keys.sshPub
 				}
-				r := verifCertgenRequest("POST", "alice", ty, keyData, nil, nil)
-				r.AddCookie(cookie)
-				rr, _ := env.serve(r)
-				if rr.Code != 200 {
-					t.Fatalf("certgen %s: %d %s", ty, rr.Code, rr.Body.String())
-				}
-				body := rr.Body.Bytes()
-				if blk, _ := pem.Decode(body); blk != nil && blk.Type == "CERTIFICATE" {
-					want = append(want, eventmon.EventV0{Type: eventmon.EventTypeX509Cert, CertData: blk.Bytes})
-				} else if f := strings.Fields(string(body)); len(f) >= 2 {
-					b, err := base64.StdEncoding.DecodeString(f[1])
-					if err != nil {
-						t.Fatal(err)
+				what = "certificate request (" + ty + ")"
+				run = func() {
+					r := verifCertgenRequest("POST", "alice", ty, keyData, nil, nil)
+					r.AddCookie(cookie)
+					rr, _ := env.serve(r)
+					if rr.Code != 200 {
+						failure = fmt.Sprintf("certgen %s: %d %s", ty, rr.Code, rr.Body.String())
+						return
 					}
-					want = append(want, eventmon.EventV0{Type: eventmon.EventTypeSSHCert, CertData: b})
+					body := rr.Body.Bytes()
+					if blk, _ := pem.Decode(body); blk != nil && blk.Type == "CERTIFICATE" {
+						want = append(want, eventmon.EventV0{Type: eventmon.EventTypeX509Cert, CertData: blk.Bytes})
+					} else if f := strings.Fields(string(body)); len(f) >= 2 {
+						b, err := base64.StdEncoding.DecodeString(f[1])
+						if err != nil {
+							failure = err.Error()
+							return
+						}
+						want = append(want, eventmon.EventV0{Type: eventmon.EventTypeSSHCert, CertData: b})
+					}
 				}
 				desc = append(desc, "issue "+ty)
-			default:
-				f := url.Values{}
-				f.Set("username", "alice")
-				f.Set("password", "alicepw")
-				r := verifNewRequest("POST", "/api/v0/login", f)
-				r.Header.Set("Accept", "application/json")
-				rr, _ := env.serve(r)
-				if rr.Code != 200 {
-					t.Fatalf("login: %d", rr.Code)
+			case kind == 3:
+				what = "password login"
+				run = func() {
+					f := url.Values{}
+					f.Set("username", "alice")
+					f.Set("password", "alicepw")
+					r := verifNewRequest("POST", "/api/v0/login", f)
+					r.Header.Set("Accept", "application/json")
+					rr, _ := env.serve(r)
+					if rr.Code != 200 {
+						failure = fmt.Sprintf("login: %d", rr.Code)
+						return
+					}
+					want = append(want, eventmon.EventV0{Type: eventmon.EventTypeAuth, AuthType: eventmon.AuthTypePassword, Username: "alice"})
 				}
-				want = append(want, eventmon.EventV0{Type: eventmon.EventTypeAuth, AuthType: eventmon.AuthTypePassword, Username: "alice"})
 				desc = append(desc, "login")
+			default:
+				blob := []byte(fmt.Sprintf("direct publish %d of history %d, some certificate-like bytes \x00\x01\xff", k, hi))
+				var e eventmon.EventV0
+				var call func()
+				switch kind {
+				case 4:
+					e, call = eventmon.EventV0{Type: eventmon.EventTypeSSHCert, CertData: blob}, func() { eventNotifier.PublishSSH(blob) }
+					what = "PublishSSH"
+				case 5:
+					e, call = eventmon.EventV0{Type: eventmon.EventTypeX509Cert, CertData: blob}, func() { eventNotifier.PublishX509(blob) }
+					what = "PublishX509"
+				case 6:
+					e, call = eventmon.EventV0{Type: eventmon.EventTypeAuth, AuthType: eventmon.AuthTypeU2F, Username: "bob"}, func() { eventNotifier.PublishAuthEvent(eventmon.AuthTypeU2F, "bob") }
+					what = "PublishAuthEvent"
+				case 7:
+					e, call = eventmon.EventV0{Type: eventmon.EventTypeServiceProviderLogin, ServiceProviderUrl: "https://sp.example/cb", Username: "bob"}, func() { eventNotifier.PublishServiceProviderLoginEvent("https://sp.example/cb", "bob") }
+					what = "PublishServiceProviderLoginEvent"
+				case 8:
+					e, call = eventmon.EventV0{Type: eventmon.EventTypeWebLogin, Username: "bob"}, func() { eventNotifier.PublishWebLoginEvent("bob") }
+					what = "PublishWebLoginEvent"
+				default:
+					e, call = eventmon.EventV0{Type: eventmon.EventTypeAuth, AuthType: eventmon.AuthTypeSymantecVIP, VIPAuthType: eventmon.VIPAuthTypeOTP, Username: "bob"}, func() { eventNotifier.PublishVIPAuthEvent(eventmon.VIPAuthTypeOTP, "bob") }
+					what = "PublishVIPAuthEvent"
+				}
+				run = func() { call(); want = append(want, e) }
+				desc = append(desc, what)
 			}
-			for _, e := range want {
-				published = append(published, e)
-				ops = append(ops, "NPub ("+c20sCoqEvent(e)+")")
+			nStalled := 0
+			for _, s := range subs {
+				if s.stallAt >= 0 && k >= s.stallAt {
+					nStalled++
+				}
 			}
-			// every subscriber reads until it is exactly `lag` events behind
+			cs := map[string]interface{}{"history": hi, "operation": k, "what": what, "operations_so_far": append([]string(nil), desc...), "events_published_before": len(published)}
+			finished, blocked := c20sGuard(res, subs, what, cs, run)
+			res.bump("guarded_operations")
+			if nStalled > 0 {
+				res.bump("operations_with_a_stalled_subscriber")
+			}
+			if blocked {
+				blockedOps = append(blockedOps, fmt.Sprintf("%d%%nat", k))
+				aborted = true
+				if !finished {
+					res.hit(verifHit{Key: "C20:publish-blocked:not-released", Oracle: "the blocked operation returns once the stalled subscribers are read or disconnected", Kind: "history",
+						What: what + " did not return 20 s after the stalled subscribers were read and then disconnected", Case: cs})
+					break
+				}
+			}
+			if failure != "" {
+				t.Fatalf("%s", failure)
+			}
+			if len(want) != 1 {
+				t.Fatalf("%s: %d events expected from one operation", what, len(want))
+			}
+			published = append(published, want[0])
+			ops = append(ops, "NPub ("+c20sCoqEvent(want[0])+")")
+			if aborted {
+				break
+			}
+			// a subscriber that has just stopped reading: its connection goroutine takes this event and
+			// blocks writing it (give it the time to do so: the model's step must have happened)
 			for i, s := range subs {
+				if s.stallAt >= 0 && k >= s.stallAt && !s.inHand {
+					time.Sleep(100 * time.Millisecond)
+					s.inHand = true
+					ops = append(ops, fmt.Sprintf("NRecv %d", i))
+				}
+			}
+			// every reading subscriber reads until it is exactly `lag` events behind
+			for i, s := range subs {
+				if s.stallAt >= 0 && k >= s.stallAt {
+					res.eval(fmt.Sprintf("stream|stalled|outstanding%d|%s", len(published)-len(s.got), desc[len(desc)-1]), true)
+					continue
+				}
 				behind := len(published) - len(s.got)
 				res.eval(fmt.Sprintf("stream|lag%d|behind%d|%s", s.lag, behind, desc[len(desc)-1]), behind > 1)
 				for len(published)-len(s.got) > s.lag {
@@ -186,8 +366,11 @@ func TestVerif_C20S(t *testing.T) {
 				}
 			}
 		}
-		// the end: everybody reads what is left
+		// the end: every healthy subscriber reads what is left
 		for i, s := range subs {
+			if s.stallAt >= 0 {
+				continue
+			}
 			for len(s.got) < len(published) {
 				if !s.readOne() {
 					break
@@ -195,14 +378,54 @@ func TestVerif_C20S(t *testing.T) {
 				ops = append(ops, fmt.Sprintf("NRecv %d", i))
 			}
 		}
+		// ... and the stalled ones are read at last: whatever their queues accepted (until nothing
+		// more arrives)
+		if !aborted {
+			for _, s := range subs {
+				if s.stallAt < 0 {
+					continue
+				}
+				for s.bad == "" {
+					s.conn.SetReadDeadline(time.Now().Add(400 * time.Millisecond))
+					var e eventmon.EventV0
+					if err := s.dec.Decode(&e); err != nil {
+						break
+					}
+					s.got = append(s.got, e)
+				}
+			}
+		} else {
+			blockedHistories++
+		}
 		var streams []string
-		for _, s := range subs {
+		for si, s := range subs {
 			cs := map[string]interface{}{"history": hi, "lag": s.lag, "operations": desc}
+			if s.stallAt >= 0 {
+				cs["stopped_reading_at_operation"] = s.stallAt
+			}
 			if s.bad != "" {
 				res.hit(verifHit{Key: "C20:delivered-bytes:stream", Oracle: "a subscriber that stays within the queue is handed every published event as a well-formed document", Kind: "history",
 					What: fmt.Sprintf("subscriber reading %d events behind: after %d of %d events the stream could not be read: %s", s.lag, len(s.got), len(published), s.bad), Case: cs})
 			}
+			if s.stallAt >= 0 && !aborted {
+				// a subsequence of the publications, in order
+				j := 0
+				for _, e := range s.got {
+					for j < len(published) && !c20sSame(e, published[j]) {
+						j++
+					}
+					if j == len(published) {
+						res.hit(verifHit{Key: "C20:delivered-bytes:stalled-stream", Oracle: "what a subscriber that stopped reading is handed later is a subsequence of the published events, in order", Kind: "history",
+							What: fmt.Sprintf("subscriber %d (stopped reading at operation %d): its stream of %d events is not a subsequence of the %d published events", si, s.stallAt, len(s.got), len(published)), Case: cs})
+						break
+					}
+					j++
+				}
+			}
 			for k := range s.got {
+				if s.stallAt >= 0 {
+					break
+				}
 				if k < len(published) && !c20sSame(s.got[k], published[k]) {
 					kind := "login"
 					if published[k].Type == eventmon.EventTypeSSHCert {
@@ -222,6 +445,10 @@ func TestVerif_C20S(t *testing.T) {
 					break
 				}
 			}
+			if s.stallAt < 0 && s.bad == "" && len(s.got) < len(published) {
+				res.hit(verifHit{Key: "C20:delivered-bytes:lost", Oracle: "a subscriber that stays within the queue is handed every published event", Kind: "history",
+					What: fmt.Sprintf("subscriber reading %d events behind was handed %d of %d published events", s.lag, len(s.got), len(published)), Case: cs})
+			}
 			var evs []string
 			for _, e := range s.got {
 				evs = append(evs, "("+c20sCoqEvent(e)+")")
@@ -229,17 +456,20 @@ func TestVerif_C20S(t *testing.T) {
 			streams = append(streams, "["+strings.Join(evs, "; ")+"]")
 			s.conn.Close()
 		}
-		cases = append(cases, fmt.Sprintf(" (%d%%nat, [%s],\n  [%s])", len(subs), strings.Join(ops, "; "), strings.Join(streams, ";\n   ")))
-		idx = append(idx, fmt.Sprintf("%d\tsubscribers with lag 0..15, %d published events: %s", hi, len(published), strings.Join(desc, ", ")))
+		cases = append(cases, fmt.Sprintf(" (%d%%nat, [%s], [%s],\n  [%s], [%s])", len(subs), strings.Join(stalledIdx, "; "), strings.Join(ops, "; "), strings.Join(streams, ";\n   "), strings.Join(blockedOps, "; ")))
+		idx = append(idx, fmt.Sprintf("%d\tsubscribers with lag 0..15 and two that stop reading at operations %v, %d published events, operations that did not return: %v: %s", hi, stallStarts, len(published), blockedOps, strings.Join(desc, ", ")))
 		res.bump("stream_histories")
 	}
+	res.Extra["histories_with_a_blocked_operation"] = blockedHistories
 	var sb strings.Builder
 	sb.WriteString(coqCaseHeader)
 	sb.WriteString("From KM Require Import Base.Cases Model.Events.\n")
-	sb.WriteString("(* (number of subscribers, publishes and reads in the order they happened, the stream each subscriber was handed) *)\n")
-	sb.WriteString("Definition shists : list (nat * list nop * list (list event)) := [\n" + strings.Join(cases, ";\n") + "\n].\n")
-	sb.WriteString("Definition c20s_mismatches := Eval vm_compute in mismatches (fun c => negb (stream_history_ok c)) shists.\nPrint c20s_mismatches.\n")
-	sb.WriteString("Definition c20s_ncases := Eval vm_compute in fold_left (fun n (h : nat * list nop * list (list event)) => (n + N.of_nat (length (snd (fst h))))%N) shists 0%N.\nPrint c20s_ncases.\n")
+	sb.WriteString("(* (number of subscribers, the ones that stop reading, publishes and reads in the order they happened, the stream each subscriber was handed, operations that did not return) *)\n")
+	sb.WriteString("Definition shists : list (nat * list nat * list nop * list (list event) * list nat) := [\n" + strings.Join(cases, ";\n") + "\n].\n")
+	sb.WriteString("Definition c20s_mismatches := Eval vm_compute in mismatches (fun c => negb (stream_history_ok2 c)) shists.\nPrint c20s_mismatches.\n")
+	sb.WriteString("(* mismatching cases whose OBSERVATION violates the property: an operation did not terminate, a healthy subscriber was not handed exactly the published sequence, a stalled one something that is no subsequence *)\n")
+	sb.WriteString("Definition c20s_violating := Eval vm_compute in mismatches (fun c => negb (stream_history_ok2 c) && stream_obs_violates c) shists.\nPrint c20s_violating.\n")
+	sb.WriteString("Definition c20s_ncases := Eval vm_compute in fold_left (fun n (h : nat * list nat * list nop * list (list event) * list nat) => (n + N.of_nat (length (snd (fst (fst h)))))%N) shists 0%N.\nPrint c20s_ncases.\n")
 	if err := ioutil.WriteFile(filepath.Join(verifOut(), "CasesC20S.v"), []byte(sb.String()), 0644); err != nil {
 		t.Fatal(err)
 	}
